@@ -388,11 +388,30 @@ func checkC02Engine(c C02Engine) (o Outcome) {
 		w.viol = nil
 	}
 	o.Viol = w.viol
-	// walking back with 'previous' shows the same pages again
-	if o.Viol == nil && pc.Prev != nil && len(pages) >= 2 && last.ExecErr == "" && last.FlushErr == "" && last.Panic == "" &&
-		last.After != nil && last.After.Path[len(last.After.Path)-1] != "_catch" && cur == len(pages)-1 {
-		for i := len(pages) - 2; i >= 0; i-- {
-			st := s.Request([]byte(pc.Prev.Sel))
+	// walking back with 'previous' shows the same pages again (a second session: the
+	// first one has been sent past the end)
+	if o.Viol == nil && pc.Prev != nil && w.pages >= 2 && len(pages) >= w.pages {
+		storage2, cleanup2 := app.Storage(nil), func() {}
+		if c.Mode.Kind != "long" {
+			storage2, cleanup2 = newStorage(c.Mode.Backend)
+		}
+		defer cleanup2()
+		s2 := app.NewSession(app.NewShared(pc.toApp()), c.Mode, storage2)
+		ok := true
+		for i := 0; i < w.pages && ok; i++ {
+			in := ""
+			if i > 0 {
+				in = pc.Next.Sel
+			}
+			st := s2.Request([]byte(in))
+			ok = st.Panic == "" && st.ExecErr == "" && st.FlushErr == "" && st.Out == pages[i]
+		}
+		if !ok {
+			o.Viol = viol("walk-not-repeatable", "a second session walking the same %d pages forward does not see the same pages", w.pages)
+			return
+		}
+		for i := w.pages - 2; i >= 0; i-- {
+			st := s2.Request([]byte(pc.Prev.Sel))
 			if st.Panic != "" || st.ExecErr != "" || st.FlushErr != "" {
 				o.Viol = viol("walk-back-fails", "going back from page %d to page %d fails: %s%s%s", i+1, i, st.Panic, st.ExecErr, st.FlushErr)
 				return
